@@ -135,6 +135,15 @@ func main() {
 	r.Register("balance", func(a []string) string { return censusOf("balance") })
 	r.Register("blockcensus", func(a []string) string { return censusOf("blockcensus") })
 	r.Register("pkgvars", func(a []string) string { return censusOf("pkgvars") })
+	r.Register("switches", func(a []string) string {
+		if sa == nil && saErr == nil {
+			sa, saErr = loadStatic(p.repo)
+		}
+		if saErr != nil {
+			return "static-load-failed:" + saErr.Error()
+		}
+		return sa.switches()
+	})
 	r.Register("gocensus", func(a []string) string {
 		if sa == nil && saErr == nil {
 			sa, saErr = loadStatic(p.repo)
@@ -179,6 +188,7 @@ func main() {
 		r.Do("balance")
 		r.Do("blockcensus")
 		r.Do("pkgvars")
+		r.Do("switches")
 		for k, n := range sa.unrec {
 			r.Stat("static.unrecognised."+k, int64(n))
 		}
